@@ -189,11 +189,10 @@ func c19Step(pb **z.Bloom, hs *[16]uint64, S uint16, e c19Ev) (S2 uint16, v *c19
 		}
 		S = 0
 	case c19JSON:
-		if setLocs == 0 {
-			// NewBloomFilter would read a location count of 0 as a false-positive rate; not reachable
-			// with the parameterisations of this check. Nothing is asserted.
-			return S, nil, "json round trip skipped: filter with 0 locations"
-		}
+		// (a filter with 0 hash locations cannot be built from the (entries, locations) or
+		// (entries, rate < 1) parameterisations on the unchanged tree; if a change makes one
+		// reachable, the round trip is judged like any other)
+		_ = setLocs
 		var nb *z.Bloom
 		var err error
 		if p := c19Try(func() { nb, err = z.JSONUnmarshal(b.JSONMarshal()) }); p != nil {
@@ -496,7 +495,7 @@ func c19(tier string, r *ev.Run, replay string) {
 
 	entries := []float64{1, 100, 512, 513, 1000, 5000}
 	locs := []float64{1, 2, 3, 7}
-	rates := []float64{0.5, 0.1, 0.01, 0.0001}
+	rates := []float64{0.5, 0.1, 0.01, 0.0001, 0.75, 0.9, 0.99} // incl. rates close to 1 (a single hash location)
 	depth := 5
 	budget := 40 * time.Second
 	stride := int64(499979)
